@@ -131,3 +131,36 @@ func VH_C10_slice_concat() {
 	vAssert("argument-unchanged", len(seq.Bytes()) == L)
 	vObserve("npieces", len(pieces))
 }
+
+//verif:harness prop=C10 quick=2 thorough=4 merge=concrete
+//verif:bounds Concat of a head of 0..3 residues and a tail of 2 (quick) / 2..3 residues whose table holds one atom (range with flags | point | between-site incl. the site before the first residue) with symbolic coordinates: the tail's feature lands at its own coordinates plus len(head), kind, strand and flags unchanged
+func VH_C10_concat_offsets() {
+	sh := vShard(2 + 2*vTier())
+	Lb := 2 + sh/2
+	La := vChoice("La", 4)
+	a := New(nil, nil, vBytes("a", La))
+	loc := vGenAtom("f", Lb, 3)
+	if sh%2 == 1 {
+		loc = loc.Complement()
+	}
+	ff := FeatureSlice{}
+	ff = ff.Insert(Feature{"gene", loc, vFeatTag(1)})
+	b := New(nil, ff, vBytes("b", Lb))
+	out := Concat(a, b)
+	vCover("concatenated")
+	vAssert("length", len(out.Bytes()) == La+Lb)
+	fs := out.Features()
+	vAssert("feature-kept", len(fs) == 1)
+	if len(fs) != 1 {
+		return
+	}
+	as, bs := vAtoms(loc), vAtoms(fs[0].Loc)
+	vAssert("same-shape", vSameKinds(as, bs))
+	if vSameKinds(as, bs) {
+		for k := range as {
+			vAssert("offset-by-head-length", vAnd(bs[k].s == as[k].s+La, bs[k].e == as[k].e+La))
+			vAssert("strand-and-flags-kept", vAnd(bs[k].rev == as[k].rev, vAnd(bs[k].p5 == as[k].p5, bs[k].p3 == as[k].p3)))
+		}
+	}
+	vObserve("n", len(bs))
+}
